@@ -40,3 +40,21 @@ claim("C01",
       note="Bounded in the number of keys per call (1-2 per family, 12 stacked members), unbounded in names/indices. Wrapped estimators obey the sklearn "
            "get_params/set_params protocol (assumed). QuantileMLPRegressor constructor (super(Class, self) form) is covered by the bounded stand-in only.",
       technique="deductive verification: symbolic execution with generic string keys against contracts, z3 string theory")
+claim("C02",
+      text="Proof: the real fit of ConstraintKMeans, PiecewiseTreeRegressor, IntervalRegressor, QuantileLinearRegression, ClassifierAfterKMeans, "
+           "TransferTransformer, KMeansL1L2, TransformedTargetRegressor2 is executed with one exceptional path per call into a dependency / inner estimator; on "
+           "EVERY exit (normal or exceptional) each hyper-parameter attribute is the same object/term as before, parameter objects received no set_params, "
+           "no in-place write reached the caller's X, y, sample_weight; fit returns self; given estimators are cloned, never fitted, where the class promises "
+           "it. Bounded: get_params and byte snapshots around successful and failing fits (NaN, one row, inner estimator failing on k-th fit) on 18 configurations.",
+      note="In-repo steps constraint_kmeans, _fit_reglin, _fit_l1, clone_with_fitted_parameters are opaque (assumed not to touch hyper-parameters; may raise). "
+           "Copies made inside scikit-learn are assumed. Remaining estimators only through the bounded stand-in.",
+      technique="deductive verification: frame conditions on every exit path incl. exceptional ones (fault-forking symbolic execution), z3")
+claim("C03",
+      text="Proof (non-interference as a frame condition): fit is executed on an instance whose fitted attributes and private caches hold stale values of an "
+           "earlier fit; on every normal exit no stale value survives in a fitted attribute or cache (PermutationReciprocalTransformer's neighbour cache "
+           "included), no unseeded RandomState() is drawn from, an integer random_state never uses the global generator where documented. "
+           "Bounded: fit(A);fit(B) vs fresh fit(B), two fits under one global seed, integer random_state under two global seeds on 18 configurations; "
+           "PiecewiseClassifier with buckets missing a class for random_state in {None,0,1,7}.",
+      note="Same assumed contracts as C02. PiecewiseRegressor/Classifier.fit and DecisionTreeLogisticRegression.fit are covered by the bounded stand-in only "
+           "for this property.",
+      technique="deductive verification: stale-state frame conditions + RNG provenance tags on the symbolic trace, z3")
